@@ -2,7 +2,7 @@
 # Builds /verif/seeded/<id>/meta.json from notes.md (written by the sub-agent that made the change),
 # verify.json (tools/verify_seeds.sh) and detect.json (tools/detect_seeds.sh).
 import json,glob,os,re
-for d in sorted(glob.glob('/verif/seeded/C*-[AB]')):
+for d in sorted(glob.glob('/verif/seeded/C*-[A-D]')):
     id=os.path.basename(d)
     notes=open(d+'/notes.md').read()
     title=notes.splitlines()[0].strip('# ').strip()
